@@ -46,6 +46,11 @@ var c09Bodies = []string{
 	"[%i, %i + 1]",
 	"\"s\" + toa(%i)",
 	"yield %i",
+	"yield %i * 2",
+	"yield f(%i)",
+	"yield [%i, 1][0]",
+	"{\nyield %i + 1\n7\n}",
+	"{\nyield (a) -> a\nyield \"s\" + toa(%i)\n}",
 	"(a) -> a + %i",
 	"[1, 2, 3][%i % 3]",
 	"\"abc\"[0:%i % 3]",
